@@ -162,6 +162,9 @@ def runs(ck):
              "graft": ["SGD", "RMSPROP", "ADAGRAD"][gi % 3], "nesterov": bool(gi % 2)}
         if fd:
           o.update(fd=True, reuse=True, P=1)
+        elif vname in ("int16", "full", "shard") and r0["N"] in (6, 11):
+          # preconditioner interval scheduled with the learning rate (lax.cond traces both refresh closures)
+          o.update(sched="lin16", End=10)
         job = {"o": o, "tree": r0["cfg"]["tree"], "Ds": Ds, "T": 4 if quick else 6,
                "seed": ck.seed * 1000 + gi, "rec": rec}
         if mode == "shard":
